@@ -8,7 +8,8 @@
 (*             and for the single wide array: the table is well formed,    *)
 (*             Dec4 at EVERY code gives back the map, Pairs4/Agree4 say    *)
 (*             the same, and Agree4 rejects every one-point change of the  *)
-(*             map.  Same for formats 6 and (InitMaps12) 12.               *)
+(*             map (reference encoder; the others when NegAll).  Same for  *)
+(*             formats 6 and (InitMaps12) 12.                              *)
 (*  InitBodies every format-4 body (segCount <= 2, glyph array <= GA       *)
 (*             words, every word value): whenever the segments are well    *)
 (*             formed, the O(span) whole-space test Agree4 and the list    *)
